@@ -407,4 +407,31 @@ theorem routes_differ_outside_31bit :
 theorem shift_count_differs_outside_0_31 :
     (JMap.SIntShiftDn 1#32 32#32).toInt ≠ (Spec.SIntShiftDn (sx 1#32) 32#64).toInt := by decide
 
+/-! ## big-integer constants: `gj0BInt` emits `BigInteger.valueOf(<int literal>)` for short values and
+`new BigInteger("<digits>")` otherwise.  `Gen.JMap.bintLit` is that choice with the bound read from the
+source (`bintLength(val) < 30`).  The `valueOf` form passes a Java `int` literal printed with `%d`, so
+it must only be chosen for values of the signed 32-bit range: widening the bound beyond 32 breaks
+`bint_literal_fits_int`, and with it the literal would no longer denote the constant
+(`bint_literal_text_exact`). -/
+theorem bint_literal_fits_int (v p : Int) (h : JMap.bintLit v = .valueOf p) :
+    -2 ^ 31 ≤ v ∧ v < 2 ^ 31 := by
+  have := bint_literal_range v p h
+  omega
+
+theorem bint_literal_text_exact (v p : Int) (h : JMap.bintLit v = .valueOf p) : p = v := by
+  have hr := bint_literal_fits_int v p h
+  unfold JMap.bintLit at h
+  split at h
+  · exact absurd h (by simp)
+  · split at h
+    · split at h
+      · exact absurd h (by simp)
+      · simp only [JMap.BIntLit.valueOf.injEq] at h
+        rw [← h]; exact toInt_ofInt32 (by unfold InI32; omega)
+    · exact absurd h (by simp)
+/-- the switch-over itself: 2^29 - 1 is the largest `valueOf` constant, 2^29 the first string one -/
+example : JMap.bintLit 536870911 = .valueOf 536870911 := by decide
+example : JMap.bintLit (-536870911) = .valueOf (-536870911) := by decide
+example : JMap.bintLit 536870912 = .string 536870912 := by decide
+
 end AldorVerif.C12
